@@ -12,58 +12,7 @@ func init() {
 	verifRegister("C03_hist", verifH_C03_hist)
 }
 
-type verifCrash struct{}
 
-// verifRunWithCrash runs fn with a hook that, at every event accepted by
-// match, chooses between dying there (panic caught here; nothing more is
-// written) and going on. It reports whether the process "died" and at which event.
-func verifRunWithCrash(match func(ev string) bool, fn func()) (crashed bool, at string) {
-	n, pagesWritten, headerWritten := 0, 0, 0
-	storage.VerifPoint = func(ev string, off uint64) {
-		if ev == "wal.synced" {
-			verifFSMarkSynced("data/db/wal")
-		}
-		if !match(ev) {
-			return
-		}
-		n++
-		// crashfrom=k: the first k-1 crash points are passed without a choice (long
-		// statements: only the later points are explored)
-		if n < verifParam("crashfrom", 0) {
-			switch ev {
-			case "page.write":
-				pagesWritten++
-			case "header.write":
-				headerWritten++
-			}
-			return
-		}
-		if verifChoice("crash-here", 2) == 1 {
-			at = fmt.Sprintf("%s#%d", ev, n)
-			// what had been written completely before the process died
-			verifTag("pages-written", fmt.Sprint(pagesWritten))
-			verifTag("header-written", fmt.Sprint(headerWritten))
-			panic(verifCrash{})
-		}
-		switch ev {
-		case "page.write":
-			pagesWritten++
-		case "header.write":
-			headerWritten++
-		}
-	}
-	defer func() {
-		storage.VerifPoint = nil
-		if r := recover(); r != nil {
-			if _, ok := r.(verifCrash); !ok {
-				panic(r)
-			}
-			crashed = true
-		}
-	}()
-	fn()
-	return false, ""
-}
 
 // H03-hist: prefix, then `suffix`-1 free statements (optionally followed by a
 // flush of the page cache), then a last INSERT/UPDATE/
